@@ -144,14 +144,15 @@ pub fn twin() {
 /// checkpoint covering segments up to a symbolic id. Every listed segment that the checkpoint does not cover must be
 /// loaded; nothing that is not listed may be.
 pub fn segment_plan(n: usize) {
-    let ids = [vs::u64(), vs::u64(), vs::u64()];
-    let mins = [vs::u64(), vs::u64(), vs::u64()];
-    vs::assume(ids[0] < 8 && ids[1] < 8 && ids[2] < 8);
-    vs::assume(ids[0] != ids[1]);
-    if n > 2 { vs::assume(ids[0] != ids[2] && ids[1] != ids[2]); }
+    // ids are concrete and distinct (1,2,3 in list order or reversed); minimum stamps are drawn from {5,7} (so that
+    // equal and unequal minima, in either order, are all covered); the checkpoint's last id is any of 0..=3
+    let rev = vs::bool();
+    let ids = if rev { [3u64, 2, 1] } else { [1u64, 2, 3] };
+    let ids = if n == 2 && rev { [2u64, 1, 3] } else { ids };
+    let mins = [if vs::bool() { 5u64 } else { 7 }, if vs::bool() { 5u64 } else { 7 }, if vs::bool() { 5u64 } else { 7 }];
     let has_ck = vs::bool();
     let last = vs::u64();
-    vs::assume(last < 8);
+    vs::assume(last <= 3);
     let plan = crate::env::recover_plan(&ids[..n], &mins[..n], if has_ck { Some(last) } else { None });
     let mut all = true;
     let mut i = 0;
